@@ -54,11 +54,12 @@ type c20Desc struct {
 }
 
 type c20Case struct {
-	Kind string  `json:"kind"` // "uc" | "rlc"
-	Op   string  `json:"op"`   // "create" | "update" | "status"
-	Raw  bool    `json:"raw"`  // objects are produced by the real JSON decoder from a rendered document
-	Old  c20Desc `json:"old"`
-	New  c20Desc `json:"new"`
+	Kind string   `json:"kind"` // "uc" | "rlc"
+	Op   string   `json:"op"`   // "create" | "update" | "status"
+	Raw  bool     `json:"raw"`  // objects are produced by the real JSON decoder from a rendered document
+	Old  c20Desc  `json:"old"`
+	New  c20Desc  `json:"new"`
+	Leaf *c20Leaf `json:"leaf"` // optional: edits of real leaf fields of the Spec, applied on top of old / new
 }
 
 type c20Obs struct {
@@ -66,6 +67,12 @@ type c20Obs struct {
 	Sub bool     `json:"sub"` // a status subresource is served for this kind
 	Obj *c20Desc `json:"obj,omitempty"`
 	Old *c20Desc `json:"old,omitempty"` // the stored object after the call (BeforeUpdate must not change what we compare against)
+	// leaf cases: decided on the wire form (JSON of the Spec member), independently of the code under test
+	SpecDiffers *bool    `json:"spec_differs,omitempty"` // stored and submitted spec have different wire forms
+	SpecKept    *bool    `json:"spec_kept,omitempty"`    // the object to be stored carries the submitted spec
+	OldKept     *bool    `json:"old_kept,omitempty"`     // the stored object's spec was not touched
+	Paths       []string `json:"paths,omitempty"`
+	Leaves      int      `json:"leaves,omitempty"`
 }
 
 // ---------------------------------------------------------------- real wiring
@@ -340,6 +347,25 @@ func viaCodec(kind string, d c20Desc) runtime.Object {
 	return obj
 }
 
+// projectLeaf: metadata and status only (the spec of a leaf case is judged on its wire form)
+func projectLeaf(obj runtime.Object) *c20Desc {
+	d := &c20Desc{}
+	switch o := obj.(type) {
+	case *proxyv1alpha1.UpstreamCluster:
+		descMeta(o.ObjectMeta, d)
+	case *proxyv1alpha1.RateLimitCondition:
+		descMeta(o.ObjectMeta, d)
+		if o.Status.LimitItemStatuses != nil {
+			l := []int64{}
+			for _, it := range o.Status.LimitItemStatuses {
+				l = append(l, int64(it.RequestLevel))
+			}
+			d.Status.C = &l
+		}
+	}
+	return d
+}
+
 var stores *c20Stores
 
 func runC20(raw json.RawMessage) interface{} {
@@ -374,6 +400,21 @@ func runC20(raw json.RawMessage) interface{} {
 			strat = stores.status[stratKind]
 		}
 		old := mk(objKind, c.Old)
+		if c.Leaf != nil {
+			paths := applyLeafEdits(old, c.Leaf.Populate, c.Leaf.Old)
+			paths = append(paths, "->")
+			paths = append(paths, applyLeafEdits(obj, c.Leaf.Populate, c.Leaf.New)...)
+			wOld, wNew := specWire(old), specWire(obj)
+			differs := wOld != wNew
+			o := c20Obs{Res: "err", Sub: sub, SpecDiffers: &differs, Paths: paths, Leaves: leafCount(objKind)}
+			if err := rest.BeforeUpdate(strat, ctx, obj, old); err != nil {
+				return o
+			}
+			kept, oldKept := specWire(obj) == wNew, specWire(old) == wOld
+			o.Res, o.SpecKept, o.OldKept = "ok", &kept, &oldKept
+			o.Obj, o.Old = projectLeaf(obj), projectLeaf(old)
+			return o
+		}
 		if err := rest.BeforeUpdate(strat, ctx, obj, old); err != nil {
 			return c20Obs{Res: "err", Sub: sub}
 		}
